@@ -41,6 +41,9 @@ type Case struct {
 	// Quiet lists URR ids whose removal yields no final report from the data plane
 	// (the no-op driver never returns one; gtp5g may answer without a report)
 	Quiet []uint32 `json:"quiet,omitempty"`
+	// Double lists URR ids for which the data plane answers a removal with two usage reports (the netlink answer is a
+	// list); each of them is a report of that URR in the response
+	Double []uint32 `json:"double,omitempty"`
 	// Perm != 0: the child IEs of every Create / Update IE are sent in another order derived from it
 	Perm uint32 `json:"perm,omitempty"`
 }
@@ -220,6 +223,11 @@ func gen(t *rapid.T) Case {
 		}
 	}
 	c := Case{Evs: evs, Quiet: quietList}
+	for id := uint32(1); id <= 3; id++ {
+		if !quiet[id] && rapid.IntRange(0, 4).Draw(t, "double") == 0 {
+			c.Double = append(c.Double, id)
+		}
+	}
 	if rapid.IntRange(0, 2).Draw(t, "permute") == 0 {
 		c.Perm = rapid.Uint32Range(1, 1<<30).Draw(t, "perm")
 	}
@@ -244,11 +252,19 @@ func run(c Case) (v *vcore.Violation, stt stats) {
 	for _, q := range c.Quiet {
 		quiet[q] = true
 	}
+	double := map[uint32]bool{}
+	for _, q := range c.Double {
+		double[q] = true
+	}
 	d.ReportFor = func(op string, seid uint64, urrid uint32) []upfreport.USAReport {
 		if op == "remove" && quiet[urrid] {
 			return nil
 		}
-		return []upfreport.USAReport{{URRID: urrid, StartTime: time.Unix(1700000000, 0), EndTime: time.Unix(1700000100, 0)}}
+		one := upfreport.USAReport{URRID: urrid, StartTime: time.Unix(1700000000, 0), EndTime: time.Unix(1700000100, 0)}
+		if op == "remove" && double[urrid] {
+			return []upfreport.USAReport{one, one}
+		}
+		return []upfreport.USAReport{one}
 	}
 	st, err := stack.New(stack.Opts{Driver: d, Nodes: 2})
 	if err != nil {
